@@ -52,9 +52,15 @@ func runC09(c *core.Ctx, r *core.Result) {
 	// the window crosses the 2.0.2, 2.0.4, mint-burn and PIP-10 activations, every block also carrying a transfer to the
 	// burn address: whatever a running node decides once per process (first use) meets a restart on either side of a rule change
 	c09Explore(c, r, 4, depth, c09Cross)
+	// the window ends ON the second staking-snapshot height (576; the first snapshot, 432, lies in the prefix): the last block
+	// values the holders' stakes, with fall-back rates when it has none of its own, after any placement of restarts
+	c09Explore(c, r, 4, depth-1, c09Snapshot)
 }
 
-const c09Cross = -1
+const (
+	c09Cross    = -1
+	c09Snapshot = -2
+)
 
 func c09Block(b *drive.Builder, typ byte) {
 	h := b.Next()
@@ -76,7 +82,11 @@ func c09Block(b *drive.Builder, typ byte) {
 
 func c09Explore(c *core.Ctx, r *core.Result, period uint64, depth int, stage int) {
 	var era drive.Era
-	if stage == c09Cross {
+	if stage == c09Snapshot {
+		// without averaging: the known window finding (C09-K1) would otherwise explain away whatever differs here
+		era = drive.EraStage(drive.StV204Burn)
+		era.Name = "window-ends-at-snapshot-576"
+	} else if stage == c09Cross {
 		era = drive.EraStage(drive.StV20Dev)
 		first := era.Base + 1 + 4 + uint32(period) // FundStd's four blocks and the rated prefix precede the window
 		era.V202, era.OneWaySmall, era.V204, era.V204Burn, era.PIP10 = first+1, first+1, first+2, first+3, first+4
@@ -96,6 +106,16 @@ func c09Explore(c *core.Ctx, r *core.Result, period uint64, depth int, stage int
 	// prefix: funded, window fully rated; keep the uninterrupted daemon's cache
 	b0 := drive.NewBuilder(era)
 	FundStd(b0)
+	if stage == c09Snapshot {
+		for b0.Next() < 431 {
+			b0.AddEmpty(1)
+		}
+		b0.Add(drive.BlockSpec{Rates: R1(), OPRPayTo: kit.AddrStr(KM)})
+		b0.Add(drive.BlockSpec{Rates: R1(), OPRPayTo: kit.AddrStr(KM)}) // 432: first snapshot
+		for b0.Next() < 576-uint32(depth)+1-uint32(period) {
+			b0.AddEmpty(1)
+		}
+	}
 	for i := uint64(0); i < period; i++ {
 		b0.Add(drive.BlockSpec{Rates: R1(), OPRPayTo: kit.AddrStr(KM)})
 	}
@@ -105,6 +125,9 @@ func c09Explore(c *core.Ctx, r *core.Result, period uint64, depth int, stage int
 	}
 	if out := d0.SyncTo(b0.Chain.Tip(), drive.SyncOpts{}); !out.Reached {
 		panic("harness: C09 prefix: " + out.String())
+	}
+	if stage == c09Snapshot && b0.Next()+uint32(depth)-1 != 576 {
+		panic(fmt.Sprintf("harness: C09 window-ends-at-snapshot: the window starts at %d with depth %d", b0.Next(), depth))
 	}
 	if stage == c09Cross && b0.Next() != era.V202-1 {
 		panic(fmt.Sprintf("harness: C09 activations-inside-window: the window starts at %d, 2.0.2 at %d", b0.Next(), era.V202))
@@ -179,7 +202,8 @@ func c09Explore(c *core.Ctx, r *core.Result, period uint64, depth int, stage int
 							// what differs: named by its cause when the two nodes priced with averaging windows of different
 							// length (the count-vs-height trimming), by the differing tables otherwise
 							what := strings.Join(canon.TablesDiffering(ref.dump, ns.dump), "+")
-							if len(ref.cache.data[fat2.PTickerUSD]) != len(ns.cache.data[fat2.PTickerUSD]) {
+							// (only where averages are in use: before the PIP-10 activation the windows exist but price nothing)
+							if tipH := b0.Chain.Tip() + uint32(len(ns.prefix)); tipH >= era.PIP10 && len(ref.cache.data[fat2.PTickerUSD]) != len(ns.cache.data[fat2.PTickerUSD]) {
 								what = "averaging-windows-of-different-length"
 								// the known count-versus-height trimming leaves both windows as SUFFIXES of the recorded rate
 								// history, of different length; a window holding anything else is a different defect
